@@ -143,6 +143,28 @@ Theorem C12_path_walk_names : forall C (t : tree C) rel,
 Proof. exact reach_names. Qed.
 Print Assumptions C12_path_walk_names.
 
+(* ---- the property's first sentence, end to end ---- *)
+(* a successful (fresh) answer of get_default for a target is the union of the imports of the files
+   the search path reaches from the target's first existing directory, minus everything named by any
+   of their forget lists; its index offers nothing that is forgotten *)
+Theorem C12_db_in_effect : forall (t : ftree) (etc : list path) ver q v,
+  fresh t etc ver q = inr v ->
+  exists d0 files fs,
+    initial_dir t q = Some d0 /\
+    get_python_path _ t (q_cwd q) (q_home q) (pyflyby_path (q_env q)) (default_pyflyby_path etc)
+                    (last (dir_chain t d0) []) = PPOk files /\
+    all_parsed (map (content_of t) files) = inr fs /\
+    (forall i, In i (known v) <-> In_union f_known fs i /\ ~ Forgotten (In_union f_forget fs) i) /\
+    (forall i, In i (mandatory v) <-> In_union f_mand fs i /\ ~ Forgotten (In_union f_forget fs) i) /\
+    (forall k vs i, In (k, vs) (index ver v) -> In i vs -> ~ In_union f_forget fs i).
+Proof. exact db_in_effect_known. Qed.
+Print Assumptions C12_db_in_effect.
+
+Theorem C12_path_same_partition_order : forall C (t : tree C) p,
+  subseq (ancestors_on_same_partition C t p) (ancestors p).
+Proof. exact same_partition_order. Qed.
+Print Assumptions C12_path_same_partition_order.
+
 (* ---- cache_coherent ---- *)
 (* full statement, repaired code (F26 fixed): after ANY history of lookups - working directory, $HOME,
    target and the three environment variables all free to change between lookups - the answer is the
